@@ -10,7 +10,7 @@ import re
 
 from . import env  # noqa: F401
 from . import gen, probes, sources
-from .canon import canon_etree, canon_errors, first_diff, brief
+from .canon import canon_etree, canon_dom, canon_errors, first_diff, brief
 from .sources import ReadLog, SimBudgetExceeded, make_source
 
 import html5lib
@@ -245,6 +245,10 @@ def gen_unit(rng, stream="main"):
     else:
         mode, container = "doc", None
     scripting = rng.random() < 0.2
+    cfg = None
+    rc = rng.random()
+    if rc < 0.25:
+        cfg = {"tb": "dom" if rng.random() < 0.5 else "etree", "ns": rng.random() < 0.6, "strict": rng.random() < 0.25}
     encs = [rng.choice(_USABLE) for _ in range(2)]
     if rng.random() < 0.5:
         encs[0] = rng.choice(["utf-8", "utf-16le", "utf-16be", "shift_jis", "gb18030", "big5", "euc-jp", "euc-kr",
@@ -265,6 +269,8 @@ def gen_unit(rng, stream="main"):
                                "simbytes_noseek", "simbytes_seekraises", "http_plain", "http_chunked", "http_addinfourl"])
         case = {"prop": PROP, "atoms": atoms, "mode": mode, "container": container, "scripting": scripting,
                 "kind": kind, "encoding": None, "declare": None}
+        if cfg:
+            case["cfg"] = cfg
         if kind in sources.BYTE_KINDS:
             enc = rng.choice(encs)
             declare = rng.choice(["override", "transport"])
@@ -324,7 +330,12 @@ def block_start():
 
 def _parse_with(source, case, chunk, kwargs, log=None):
     """Run one real parse; returns (outcome, parser)."""
-    parser = html5lib.HTMLParser(tree=_tb())
+    # parser configuration is a dimension of the case (the same for the reference and the delivery): tree builder, namespaces,
+    # strict mode - what the builder or strict mode does with a token must not depend on the delivery either
+    cfg = case.get("cfg") or {}
+    dom = cfg.get("tb") == "dom"
+    parser = html5lib.HTMLParser(tree=treebuilders.getTreeBuilder("dom") if dom else _tb(),
+                                 namespaceHTMLElements=cfg.get("ns", True), strict=bool(cfg.get("strict")))
 
     def state():
         tok = parser.__dict__.get("tokenizer")
@@ -348,12 +359,14 @@ def _parse_with(source, case, chunk, kwargs, log=None):
         except RecursionError:
             return ("raise", "RecursionError", ""), parser
         except Exception as e:  # whatever the library raises is an outcome
-            return ("raise", type(e).__name__, str(e)[:200]), parser
+            # (in strict mode the error that raised is the last entry of parser.errors: its position is part of the outcome)
+            errs = list(getattr(parser, "errors", None) or [])
+            return ("raise", type(e).__name__, str(e)[:200], errs), parser
         try:
             enc = parser.tokenizer.stream.charEncoding[0].name
         except Exception:
             enc = None
-        return ("ok", canon_etree(tree), parser.errors, enc), parser
+        return ("ok", canon_dom(tree) if dom else canon_etree(tree), parser.errors, enc), parser
     finally:
         U._defaultChunkSize = saved
         probes.set_state_fn(None)
@@ -363,7 +376,8 @@ def reference(chars, case, kwargs=None):
     """The contiguous parse.  For a str (the characters) it is the parse of that str; for a byte string that is NOT the
     encoding of any character string (`chars` is bytes: torn or damaged on purpose) it is the parse of the bytes object itself
     in one piece - the property then says that every other delivery of the same bytes gives the same result."""
-    key = (chars, case["mode"], case["container"], case["scripting"], tuple(sorted((kwargs or {}).items())) if isinstance(chars, bytes) else None)
+    key = (chars, case["mode"], case["container"], case["scripting"], tuple(sorted((kwargs or {}).items())) if isinstance(chars, bytes) else None,
+           tuple(sorted((case.get("cfg") or {}).items())))
     hit = _ref_cache.get("k")
     if hit is not None and hit[0] == key:
         return hit[1]
@@ -534,6 +548,12 @@ def execute(case):
         return _fail(res, "liveness", "read budget exceeded: %s" % out[1])
     if ref[0] == "raise" or out[0] == "raise":
         if ref[0] == out[0] and ref[1] == out[1]:
+            if (case.get("cfg") or {}).get("strict") and ref[1] == "ParseError" and len(ref) > 3 and len(out) > 3 \
+                    and not n_stream_errors(ref[3]) and not n_stream_errors(out[3]):
+                # strict mode: the same first error, at the same place (stream-level errors set aside: F2)
+                if ref[2] != out[2] or canon_errors(ref[3]) != canon_errors(out[3]):
+                    return _fail(res, "errors", "strict mode stops at a different error: reference %s %s, delivery %s %s"
+                                 % (brief(ref[2], 80), canon_errors(ref[3])[-1:], brief(out[2], 80), canon_errors(out[3])[-1:]))
             return res
         return _fail(res, "exception", "reference %s, delivery %s" % (brief(ref[:3]), brief(out[:3])))
     # both ok
@@ -624,6 +644,11 @@ def shrinks(case):
         yield dict(case, declare="override")
     if case["declare"] == "transport":
         yield dict(case, declare="override")
+    if case.get("cfg"):
+        yield dict(case, cfg=None)
+        for k, v in (("tb", "etree"), ("ns", True), ("strict", False)):
+            if case["cfg"].get(k) != v:
+                yield dict(case, cfg=dict(case["cfg"], **{k: v}))
     if case.get("mangle"):
         yield dict(case, mangle=None)
         for k in list(case["mangle"]):
@@ -636,7 +661,7 @@ def describe(case):
     return {"text": text if len(text) <= 200 else text[:200] + "...(%d chars)" % len(text),
             "mode": case["mode"], "container": case["container"], "kind": case["kind"], "encoding": case["encoding"],
             "declare": case["declare"], "chunk": case["chunk"], "src": _short_src(case["src"]),
-            "strategy": case.get("strategy"), "damage_to_the_bytes": case.get("mangle")}
+            "strategy": case.get("strategy"), "damage_to_the_bytes": case.get("mangle"), "parser_configuration": case.get("cfg")}
 
 
 def _short_src(src):
